@@ -528,6 +528,13 @@ func (t *tcpRun) execSend(op *ttree, name string) string {
 				resp = append(append([]byte{0x82}, ack(ch)[1:]...), ack([]byte("another-chunk-id"))[1:]...)
 			case respMode == "dupack2": // the other id first, the matching one last
 				resp = append(append([]byte{0x82}, ack([]byte("another-chunk-id"))[1:]...), ack(ch)[1:]...)
+			case strings.HasPrefix(respMode, "extracut"): // the same, cut off inside one of the further entries
+				full := append(append([]byte{0x83}, ack(ch)[1:]...), 0xa1, 'x', 0x92, 0x01, 0x02, 0xa4, 'n', 'o', 't', 'e', 0xa5, 'h', 'e', 'l', 'l', 'o')
+				cut := int(atoi64(respMode[8:]))
+				if cut < 1 || cut > 15 {
+					cut = 3
+				}
+				resp = full[:len(full)-cut]
 			case respMode == "extralong": // a conforming ack with further entries, longer than one fragment
 				resp = append(append([]byte{0x83}, ack(ch)[1:]...), 0xa1, 'x', 0x92, 0x01, 0x02, 0xa4, 'n', 'o', 't', 'e', 0xa5, 'h', 'e', 'l', 'l', 'o')
 			}
